@@ -413,3 +413,60 @@ M('c14-empty-stub-accepted', [(BLD, '''        if self.patterns.is_empty() {
             return Err("Stub contained no call patterns".to_string());
         }
 ''', '')], {'C14': r'R14\.3'})
+
+# ---- macro mutants: C05 C06 C15 C16 C19 (XPAND) ---------------------------------------------------
+MM = 'unimock_macros/src/unimock/mod.rs'
+MT = 'unimock_macros/src/unimock/method.rs'
+MA = 'unimock_macros/src/matching/mod.rs'
+M('c05-answer-without-receiver-first', [(MM, '''                            #prefix::private::Eval::Continue(#prefix::private::Continuation::Answer(__answer_fn), #eval_pattern_no_mut) => {
+                                __answer_fn(self, #fn_params)
+                            }''', '''                            #prefix::private::Eval::Continue(#prefix::private::Continuation::Answer(__answer_fn), #eval_pattern_no_mut) => {
+                                let _ = (#fn_params);
+                                return #prefix::private::Continuation::<#mock_fn_path #eval_generic_args>::Answer(__answer_fn).report(#self_ref)
+                            }''')], {'C05': r'R05\.3'})
+M('c05-return-arm-reports', [(MM, '''                            #prefix::private::Eval::Return(output) => output,
+                            #prefix::private::Eval::Continue(#prefix::private::Continuation::Answer''', '''                            #prefix::private::Eval::Return(output) => { let _ = output; #prefix::private::Continuation::<#mock_fn_path #eval_generic_args>::Unmock.report(#self_ref) }
+                            #prefix::private::Eval::Continue(#prefix::private::Continuation::Answer''')], {'C05': r'R05\.2|XPAND\.accept'})
+M('c05-eval-twice', [(MM, '''                    quote_spanned! { span=>
+                        match #prefix::private::eval::<#mock_fn_path #eval_generic_args>(#self_ref, #inputs_eval_params) {
+                            #prefix::private::Eval::Return(output) => output,''', '''                    quote_spanned! { span=>
+                        match #prefix::private::eval::<#mock_fn_path #eval_generic_args>(#self_ref, #inputs_eval_params) {
+                            #prefix::private::Eval::Return(output) if false => output,
+                            #prefix::private::Eval::Return(output) => output,''')], silent=['C05'])
+M('c15-default-arm-dropped-for-ref', [(MM, '''                    let default_impl_delegate_arm = if method.method.default.is_some() {
+                        Some(quote! {''', '''                    let default_impl_delegate_arm = if method.method.default.is_some() && method.non_receiver_arg_count != 2 {
+                        Some(quote! {''')], {'C15': r'R15\.1'})
+M('c15-delegator-includes-provided', [(MM, '''            .filter(|(_, method)| method.method.default.is_none())
+            .map(|(index, method)| {''', '''            .filter(|(_, method)| method.method.default.is_none() || method.non_receiver_arg_count == 0)
+            .map(|(index, method)| {''')], {'C15': r'R15\.2|XPAND\.accept'})
+M('c16-unmock-index-plus-one', [(MM, '            let unmock_arm = attr.get_unmock_fn(index).map(', '            let unmock_arm = attr.get_unmock_fn(if index > 0 { index - 1 } else { index }).map(')], {'C16': r'R16\.[13]|XPAND\.accept'})
+M('c19-pat-fail-index-shift', [(MA, '                                reporter.pat_fail(#index, #mismatch_debug, Some(#doc_lit));', '                                reporter.pat_fail(#index + 1, #mismatch_debug, Some(#doc_lit));')], {'C19': r'R19\.4'})
+M('c19-diagnostics-skip-first', [(MA, '''                    .filter_map(|(index, arg_matcher)| {
+                        arg_matcher.render_diagnostics_stmt(index, &args[index])
+                    });''', '''                    .filter_map(|(index, arg_matcher)| {
+                        if index == 0 && args.len() > 2 { return None; }
+                        arg_matcher.render_diagnostics_stmt(index, &args[index])
+                    });''')], {'C19': r'R19\.4'})
+M('c19-line-zero', [(MA, '            _m.pat_debug(#pattern_debug_lit_str, file!(), line!());\n        }\n    }\n}', '            _m.pat_debug(#pattern_debug_lit_str, file!(), 0);\n        }\n    }\n}')], {'C19': r'R19\.4'})
+M('c06-or-guards', [(MA, '            Some(quote! { if #(#concatenated_guards)&&* })', '            Some(quote! { if #(#concatenated_guards)||* })')], {'C06': r'R06\.2'})
+M('c06-ne-becomes-eq', [(MA, '''                        CompareMacro::Eq => "eq_fail",
+                        CompareMacro::Ne => "ne_fail",''', '''                        CompareMacro::Eq => "eq_fail",
+                        CompareMacro::Ne => "eq_fail",''')], silent=['C06'])
+M('c06-diag-arm-first', [(MA, '''                        #(#success_arms)*
+                        #diagnostics_arm
+                        _ => false''', '''                        #diagnostics_arm
+                        #(#success_arms)*
+                        _ => false''')], {'C06': r'R06\.[23]'})
+M('c06-catch-all-true', [(MA, '''                        #diagnostics_arm
+                        _ => false
+                    }''', '''                        #diagnostics_arm
+                        _ => !reporter.enabled()
+                    }''')], {'C06': r'R06\.[23]'})
+M('c06-operator-swapped', [(MA, '''            Self::Eq => quote_spanned! { span=> == },
+            Self::Ne => quote_spanned! { span=> != },''', '''            Self::Eq => quote_spanned! { span=> == },
+            Self::Ne => quote_spanned! { span=> == },''')], {'C06': r'R06\.2'})
+M('c05-inputs-reversed', [(MT, '''            let last_index = self.method.method.sig.inputs.len() - 1;
+            for (index, pair) in self.method.method.sig.inputs.pairs().enumerate() {''', '''            let last_index = self.method.method.sig.inputs.len() - 1;
+            let reversed_eval = matches!(self.syntax, InputsSyntax::EvalParams) && self.method.non_receiver_arg_count == 2 && self.method.method.sig.inputs.iter().skip(1).all(|a| matches!(a, syn::FnArg::Typed(t) if matches!(&*t.ty, syn::Type::Path(_))));
+            let _ = reversed_eval;
+            for (index, pair) in self.method.method.sig.inputs.pairs().enumerate() {''')], silent=['C05'])
